@@ -594,40 +594,131 @@ func (c *Ctx) seacRules() {
 		}
 	})
 	c.check(alias == "", "T1-SEAC", fname, "the composite gets its own copy of the base glyph's commands", f.Pos(), "append(g.Cmds[:0], base.Cmds...)", "the composite glyph shares the command slice of its base glyph ("+alias+"): appending the accent then overwrites the commands of other composites built on the same base")
-	// the accent's commands are translated for every command type: the switch on cmd.Op inside the seac loop is exhaustive (checked by T1-GLYPHOPS) and adds dx, dy
-	fd := c.funcDecl("type1", "", "Read")
-	info := c.info("type1")
-	okShift := true
-	n := 0
-	ast.Inspect(fd.Body, func(nn ast.Node) bool {
-		sw, ok := nn.(*ast.SwitchStmt)
-		if !ok || sw.Tag == nil || !strings.HasSuffix(info.TypeOf(sw.Tag).String(), "GlyphOpType") {
-			return true
+	// the accent's commands are translated for every command kind: one pass of the loop over the
+	// accent's commands is evaluated on the SSA form for each kind
+	var H *ssa.BasicBlock
+	opF := false
+	for _, b := range f.Blocks {
+		isHeader := false
+		for _, p := range b.Preds {
+			if b.Dominates(p) {
+				isHeader = true
+			}
 		}
-		for _, cc := range sw.Body.List {
-			cl := cc.(*ast.CaseClause)
-			ast.Inspect(cl, func(m ast.Node) bool {
-				lit, ok := m.(*ast.CompositeLit)
-				if !ok || !strings.HasSuffix(info.TypeOf(lit).String(), "[]float64") {
-					return true
-				}
-				for i, e := range lit.Elts {
-					n++
-					be, ok := e.(*ast.BinaryExpr)
-					want := "seac.dx"
-					if i%2 == 1 {
-						want = "seac.dy"
-					}
-					if !ok || be.Op != token.ADD || types.ExprString(be.Y) != want || types.ExprString(be.X) != fmt.Sprintf("cmd.Args[%d]", i) {
-						okShift = false
+		if !isHeader {
+			continue
+		}
+		// the innermost loop that reads the Op of a GlyphOp
+		hasOp := false
+		for _, q := range f.Blocks {
+			if !b.Dominates(q) || !reachesBlock(q, b) {
+				continue
+			}
+			for _, ins := range q.Instrs {
+				if fa, ok := ins.(*ssa.FieldAddr); ok {
+					if st, ok := fa.X.Type().Underlying().(*types.Pointer).Elem().Underlying().(*types.Struct); ok && st.Field(fa.Field).Name() == "Op" && strings.HasSuffix(fa.X.Type().String(), "type1.GlyphOp") {
+						hasOp = true
 					}
 				}
-				return true
-			})
+			}
 		}
-		return true
-	})
-	c.check(okShift && n == 10, "T1-SEAC", fname, "every coordinate of the accent is translated by (adx, ady), x by dx and y by dy", fd.Pos(), fmt.Sprintf("%d coordinates: Args[i] + dx|dy by parity", n), "the accent's coordinates are not all translated by the seac offsets on the matching axis")
+		if hasOp && (H == nil || H.Dominates(b)) {
+			H = b
+			opF = true
+		}
+	}
+	if !opF {
+		c.undecided("T1-SEAC", fname, "accent loop", f.Pos(), "the loop over the accent's commands was not found")
+		return
+	}
+	seacT := c.typeObj("type1", "seacInfo").Type().Underlying().(*types.Struct)
+	var offs []string
+	for i := 0; i < seacT.NumFields(); i++ {
+		if bt, ok := seacT.Field(i).Type().Underlying().(*types.Basic); ok && bt.Kind() == types.Float64 {
+			offs = append(offs, seacT.Field(i).Name())
+		}
+	}
+	var bad []string
+	for name, nargs := range map[string]int{"OpMoveTo": 2, "OpLineTo": 2, "OpCurveTo": 6, "OpClosePath": 0} {
+		opv := c.constInt("type1", name)
+		ev := &ssaEval{c: c, bind: map[ssa.Value]sv{}, mem: map[string]sv{}}
+		var appended []string
+		ev.load = func(ld *ssa.UnOp, addr sv) (sv, bool) {
+			a := addr.s
+			switch {
+			case strings.HasSuffix(a, ".Op"):
+				return intV(opv), true
+			case strings.Contains(a, ".Args["):
+				return symV("A" + strings.TrimSuffix(a[strings.LastIndex(a, "[")+1:], "]")), true
+			case strings.HasSuffix(a, ".Args"):
+				return sv{k: svAddr, s: "cmd.Args"}, true
+			case len(offs) == 2 && strings.HasSuffix(a, "."+offs[0]):
+				return symV("dx"), true
+			case len(offs) == 2 && strings.HasSuffix(a, "."+offs[1]):
+				return symV("dy"), true
+			}
+			return symV("v:" + a), true
+		}
+		ev.call = func(call ssa.CallInstruction, args []sv) (sv, bool) {
+			if callName(call) == "builtin append" && len(args) == 2 {
+				appended = append(appended, ev.render(args[1]))
+				return symV("cmds"), true
+			}
+			return sv{}, false
+		}
+		fr := &frame{vals: map[ssa.Value]sv{}}
+		if ifi, ok := H.Instrs[len(H.Instrs)-1].(*ssa.If); ok {
+			ev.bind[ifi.Cond] = boolV(reachesBlock(H.Succs[0], H))
+		}
+		for _, ins := range H.Instrs {
+			if phi, ok := ins.(*ssa.Phi); ok {
+				fr.vals[phi] = symV("idx")
+			}
+		}
+		// offsets loaded before the loop (hoisted into locals) are the same symbols
+		eachInstr(f, func(ins ssa.Instruction) {
+			if ld, ok := ins.(*ssa.UnOp); ok && ld.Op == token.MUL {
+				if fa, ok := ld.X.(*ssa.FieldAddr); ok {
+					if st, ok := fa.X.Type().Underlying().(*types.Pointer).Elem().Underlying().(*types.Struct); ok && types.Identical(st, seacT) && len(offs) == 2 {
+						switch st.Field(fa.Field).Name() {
+						case offs[0]:
+							ev.bind[ld] = symV("dx")
+						case offs[1]:
+							ev.bind[ld] = symV("dy")
+						}
+					}
+				}
+			}
+		})
+		back := false
+		ev.runBlocks(fr, H, nil, func(next, from *ssa.BasicBlock) bool {
+			if next == H {
+				back = true
+			}
+			return next == H
+		})
+		var wantArgs []string
+		for k := 0; k < nargs; k++ {
+			off := "dx"
+			if k%2 == 1 {
+				off = "dy"
+			}
+			wantArgs = append(wantArgs, fmt.Sprintf("+(A%d,%s)", k, off))
+		}
+		want := fmt.Sprintf("[{Args:[%s],Op:%d}]", strings.Join(wantArgs, " "), opv)
+		if nargs == 0 {
+			want = fmt.Sprintf("[{Op:%d}]", opv)
+		}
+		got := strings.Join(appended, " ")
+		if nargs == 0 && got == fmt.Sprintf("[{Args:nil,Op:%d}]", opv) {
+			got = want
+		}
+		if !back || got != want {
+			bad = append(bad, fmt.Sprintf("%s of the accent becomes %s, expected %s %s", name, got, want, ev.why))
+		}
+	}
+	sort.Strings(bad)
+	c.check(len(bad) == 0 && len(offs) == 2, "T1-SEAC", fname, "every command of the accent is kept and every coordinate translated by (adx, ady), x by dx and y by dy", f.Pos(), "move, line, curve, closepath evaluated", "seac: "+joinMax(bad, 2))
 }
 
 // glyphOpLiterals: every GlyphOp literal has the number of arguments its command needs.
